@@ -32,6 +32,9 @@ type FsOp struct {
 	Off uint64 `json:"off,omitempty"`
 	Cnt uint64 `json:"cnt,omitempty"`
 	Scr bool   `json:"scr,omitempty"` // aliasing probe: scribble on the passed / returned slice
+	// Direct: in the "global" systems this one call goes to the filesystem
+	// object instead of the package-level wrapper
+	Direct bool `json:"direct,omitempty"`
 }
 
 func (o FsOp) String() string {
@@ -84,62 +87,63 @@ var c12Systems = []string{"mem", "dir", "mem/global", "dir/global"}
 type fsAPI struct {
 	fs     filesys.Filesys
 	global bool
+	direct bool
 }
 
 func (a fsAPI) Create(d, n string) (filesys.File, bool) {
-	if a.global {
+	if a.global && !a.direct {
 		return filesys.Create(d, n)
 	}
 	return a.fs.Create(d, n)
 }
 func (a fsAPI) Append(f filesys.File, data []byte) {
-	if a.global {
+	if a.global && !a.direct {
 		filesys.Append(f, data)
 		return
 	}
 	a.fs.Append(f, data)
 }
 func (a fsAPI) Close(f filesys.File) {
-	if a.global {
+	if a.global && !a.direct {
 		filesys.Close(f)
 		return
 	}
 	a.fs.Close(f)
 }
 func (a fsAPI) Open(d, n string) filesys.File {
-	if a.global {
+	if a.global && !a.direct {
 		return filesys.Open(d, n)
 	}
 	return a.fs.Open(d, n)
 }
 func (a fsAPI) ReadAt(f filesys.File, off, n uint64) []byte {
-	if a.global {
+	if a.global && !a.direct {
 		return filesys.ReadAt(f, off, n)
 	}
 	return a.fs.ReadAt(f, off, n)
 }
 func (a fsAPI) Delete(d, n string) {
-	if a.global {
+	if a.global && !a.direct {
 		filesys.Delete(d, n)
 		return
 	}
 	a.fs.Delete(d, n)
 }
 func (a fsAPI) AtomicCreate(d, n string, data []byte) {
-	if a.global {
+	if a.global && !a.direct {
 		filesys.AtomicCreate(d, n, data)
 		return
 	}
 	a.fs.AtomicCreate(d, n, data)
 }
 func (a fsAPI) Link(od, on, nd, nn string) bool {
-	if a.global {
+	if a.global && !a.direct {
 		return filesys.Link(od, on, nd, nn)
 	}
 	return a.fs.Link(od, on, nd, nn)
 }
 func (a fsAPI) List(d string) []string {
-	if a.global {
+	if a.global && !a.direct {
 		return filesys.List(d)
 	}
 	return a.fs.List(d)
@@ -228,6 +232,7 @@ func sameBytes(a, b []byte) bool { return len(a) == len(b) && bytes.Equal(a, b) 
 // It returns false when a violation was recorded.
 func (c *fsChecker) step(i int, op FsOp) bool {
 	p := c.prefix
+	c.api.direct = op.Direct
 	switch op.K {
 	case "create":
 		var f filesys.File
@@ -627,6 +632,7 @@ func genFsSeq(rng *simrt.Rand, maxOps int, acBias bool) (dirs []string, ops []Fs
 				op = FsOp{K: "list", D: d}
 			}
 		}
+		op.Direct = rng.Chance(1, 5)
 		ops = append(ops, op)
 	}
 	return
